@@ -36,6 +36,14 @@ def FLOORS(tier):
         f["form:" + fo] = 100 if q else 4000
     return f
 
+_FLOORS_BEFORE_ROUND9 = FLOORS
+
+
+def FLOORS(tier):      # noqa: F811 -- floors of the input classes added in round 9 (a quarter of what seed 0 observes in the quick tier)
+    f = _FLOORS_BEFORE_ROUND9(tier)
+    f.update({'history:earlier-life-then-clear': 28, 'history:polynomial-object-edited-by-caller-afterwards': 80, 'history:refresh-between-constraints': 54})
+    return f
+
 
 def build(rng):
     """returns (H, kind, f (Poly), relations [(name, evaluator(x)->bool)], description, user variables)"""
